@@ -5,6 +5,7 @@ import Drv.RL
 import Drv.C345
 import Drv.C789
 import Drv.HT
+import Drv.Heap
 open Lean Drv
 
 def dispatch (op : String) (j : Json) : Json :=
@@ -21,6 +22,7 @@ def dispatch (op : String) (j : Json) : Json :=
   | "C08.struct" => C08.struct j
   | "C09.cols" => C09.cols j
   | "HT.run" => HTd.run j
+  | "Heap.run" => HeapD.run j
   | "RL.encode" => RL.encode j
   | "RL.index" => RL.index j
   | "RL.binop" => RL.binop j
